@@ -542,13 +542,23 @@ pub fn decode_reply(f: &[u8]) -> Result<Dec, String> {
             if ver != 4 {
                 d.problems.push(format!("IPv4 version field = {}", ver));
             }
-            if ihl != 5 {
-                d.problems.push(format!("IPv4 IHL = {} (real header is 20 bytes)", ihl));
-            }
             let tl = be16(p, 2) as usize;
             if tl != p.len() {
                 d.problems.push(format!("IPv4 total length {} != actual {}", tl, p.len()));
             }
+            // the packet as its own length field delimits it (bytes behind it are link-layer padding)
+            let end = if tl >= 20 && tl <= p.len() { tl } else { p.len() };
+            // "IHL matching the real header": a 20-byte header, or a longer one whose option area is a
+            // well-formed option list
+            let hl = if ihl < 5 || ihl * 4 > end {
+                d.problems.push(format!("IPv4 IHL = {} does not delimit a header inside the {}-byte packet", ihl, end));
+                20
+            } else {
+                if let Err(e) = check_options(&p[20..ihl * 4], false) {
+                    d.problems.push(format!("IPv4 IHL = {} but the option area is not a well-formed option list ({})", ihl, e));
+                }
+                ihl * 4
+            };
             let ff = be16(p, 6);
             if ff & 0x2000 != 0 || ff & 0x1fff != 0 {
                 d.problems.push(format!("IPv4 fragmented (flags/frag = {:#06x})", ff));
@@ -556,13 +566,13 @@ pub fn decode_reply(f: &[u8]) -> Result<Dec, String> {
             if p[8] == 0 {
                 d.problems.push("IPv4 TTL = 0".into());
             }
-            if fold(ones_sum(&p[..20], 0)) != 0xffff {
+            if fold(ones_sum(&p[..hl], 0)) != 0xffff {
                 d.problems.push(format!("IPv4 header checksum invalid (field {:#06x})", be16(p, 10)));
             }
             let src = IpAddr::V4(Ipv4Addr::new(p[12], p[13], p[14], p[15]));
             let dst = IpAddr::V4(Ipv4Addr::new(p[16], p[17], p[18], p[19]));
             let proto = p[9];
-            let l4 = decode_l4(&src, &dst, proto, &p[20..], &mut d.problems);
+            let l4 = decode_l4(&src, &dst, proto, &p[hl..end], &mut d.problems);
             d.l3 = L3D::Ip(IpD { v: 4, src, dst, proto, ttl: p[8], l4 });
         }
         ET_V6 => {
@@ -587,7 +597,8 @@ pub fn decode_reply(f: &[u8]) -> Result<Dec, String> {
             let src = IpAddr::V6(Ipv6Addr::from(s));
             let dst = IpAddr::V6(Ipv6Addr::from(t));
             let proto = p[6];
-            let l4 = decode_l4(&src, &dst, proto, &p[40..], &mut d.problems);
+            let end6 = if 40 + pl <= p.len() { 40 + pl } else { p.len() };
+            let l4 = decode_l4(&src, &dst, proto, &p[40..end6], &mut d.problems);
             if let L4D::Icmp6 { typ: 136, .. } = &l4 {
                 if p[7] != 255 {
                     d.problems.push(format!("neighbour advertisement with hop limit {}", p[7]));
@@ -598,6 +609,43 @@ pub fn decode_reply(f: &[u8]) -> Result<Dec, String> {
         _ => {}
     }
     Ok(d)
+}
+
+/// kind 0 = end of list (only padding zeros may follow), 1 = no-operation, every other option
+/// carries a length octet >= 2 that stays inside the area; for TCP the fixed-size options have
+/// their sizes (MSS 4, window scale 3, SACK-permitted 2, timestamps 10)
+pub fn check_options(o: &[u8], tcp: bool) -> Result<(), String> {
+    let mut i = 0;
+    while i < o.len() {
+        match o[i] {
+            0 => {
+                if o[i..].iter().any(|b| *b != 0) {
+                    return Err("bytes other than zero behind the end-of-list option".into());
+                }
+                return Ok(());
+            }
+            1 => i += 1,
+            k => {
+                if i + 1 >= o.len() {
+                    return Err(format!("option kind {} without a length octet", k));
+                }
+                let l = o[i + 1] as usize;
+                if l < 2 || i + l > o.len() {
+                    return Err(format!("option kind {} with length {} at offset {} of a {}-byte area", k, l, i, o.len()));
+                }
+                if tcp {
+                    let want = match k { 2 => Some(4), 3 => Some(3), 4 => Some(2), 8 => Some(10), _ => None };
+                    if let Some(w) = want {
+                        if l != w {
+                            return Err(format!("TCP option kind {} with length {} (must be {})", k, l, w));
+                        }
+                    }
+                }
+                i += l;
+            }
+        }
+    }
+    Ok(())
 }
 
 fn decode_l4(src: &IpAddr, dst: &IpAddr, proto: u8, b: &[u8], problems: &mut Vec<String>) -> L4D {
@@ -629,8 +677,12 @@ fn decode_l4(src: &IpAddr, dst: &IpAddr, proto: u8, b: &[u8], problems: &mut Vec
                 return L4D::Other(b.to_vec());
             }
             let doff = b[12] >> 4;
-            if doff != 5 {
-                problems.push(format!("TCP data offset {} (real header is 20 bytes)", doff));
+            // "data offset matches the real header": 5, or larger with a well-formed option list
+            // in between that ends inside the segment
+            if doff < 5 || (doff as usize) * 4 > b.len() {
+                problems.push(format!("TCP data offset {} does not delimit a header inside the {}-byte segment", doff, b.len()));
+            } else if let Err(e) = check_options(&b[20..(doff as usize) * 4], true) {
+                problems.push(format!("TCP data offset {} but the option area is not a well-formed option list ({})", doff, e));
             }
             if fold(ones_sum(b, pseudo(src, dst, P_TCP, b.len()))) != 0xffff {
                 problems.push(format!("TCP checksum invalid (field {:#06x})", be16(b, 16)));
